@@ -36,7 +36,7 @@ def gen_cases(tier, seed):
         b = int(rng.integers(1, n + 1))
         cases.append(dict(kind="obs", n=n, b=b, kin=int(rng.integers(0, 4)), kout=int(rng.integers(0, 4)),
                           nparams=int(rng.integers(0, 4)), pshape=int(rng.integers(2)),
-                          key=seed * 100 + k, eager=(k % 5 == 0), cost=1.0))
+                          key=seed * 100 + k, eager=(k % 5 == 0), cost=1.0, x64=bool(k % 3)))
     combos = list(itertools.product(("range", "table1", "table2", "both1", "both2"), repeat=2))
     for k, (ca, cb) in enumerate(combos * (1 if q else 8)):
         n = int(rng.integers(1, 25))
